@@ -126,8 +126,10 @@ CLAIMED = {
  'C10': ('Kernel-checked theorems: address string = Base58Check(version || hash) with the generated per-network version bytes; an address object '
          'accepts a string only if it is Base58Check-valid with that version byte and a 20-byte payload and then holds exactly that payload; '
          'round trip for every 20-byte hash (26..35-character window as hypothesis); pubkey addresses commit to HASH160 of the SEC encoding. '
-         'Rests on the proved Base58 decode/encode round trip. Model tied to the code by the correspondence run (rejection stream).',
-         NOTE_COMMON + 'base58check package modelled as Spec.B58.', 'Lean 4 proof (hand model) + differential correspondence', '6/C10'),
+         'Rests on the proved Base58 decode/encode round trip. Tier T: Address._is_address_valid (the alphabet regular expression, length window, version byte per class and '
+         'network, checksum), _address_to_hash160 and to_string are re-translated on every run (base58check as parameters) and proved equal to the model, so soundness of '
+         'acceptance and the round trip are about the translated code; the constructors and pubkey-to-address plumbing are tied by the correspondence run (rejection stream).',
+         NOTE_COMMON + 'base58check package modelled as Spec.B58.', 'Lean 4 proof over translated source (validation, decoding, rendering) + differential correspondence', '6/C10'),
  'C11': ('Kernel-checked theorems: generated charset/generator/constant and prefixes are BIP173/BIP350\'s; for v0/20, v0/32, v1/32 programs and every '
          'network prefix the address decodes back to the same program (general convertbits and checksum round trips proved for the model of '
          'bech32.py), objects re-created from string or program hold the identical program, whatever is accepted has the right prefix, single '
